@@ -36,10 +36,10 @@ RULE = ("Probe: grids 1-64 odd/even/rectangular, anisotropic extent 3-30 A, ener
         "normalize True/False, same tilts, grids incl. size-1 axes. non-trivial = probe with non-zero aberrations or tilt or "
         ">=2 positions, plane wave with >=2 pixels; distinct = distinct case signature")
 CLAUSES = ["probe-unit-intensity", "planewave-normalized", "planewave-unit-modulus", "ensemble-shape", "pipeline-incident-wave"]
-QUICK = dict(n=700, time=35)
-THOROUGH = dict(n=16000, time=360, shards=16)
+QUICK = dict(n=700, time=30)
+THOROUGH = dict(n=16000, time=330, shards=16)
 
-TOL = {"float32": 2e-5, "float64": 1e-11}
+TOL = {"float32": 1e-5, "float64": 2e-12}
 POLAR = {"C10": 1, "C12": 1, "C21": 2, "C23": 2, "C30": 3, "C32": 3, "C34": 3, "C41": 4, "C43": 4, "C45": 4,
          "C50": 5, "C52": 5, "C54": 5, "C56": 5}
 ANGLE_OF = {"C12": "phi12", "C21": "phi21", "C23": "phi23", "C32": "phi32", "C34": "phi34", "C41": "phi41", "C43": "phi43",
@@ -178,17 +178,21 @@ def gen_probe(rng):
             pos[0] = np.round(pos[0] * np.array(gpts)) / np.array(gpts)     # exactly on a grid point
         scan = {"type": "custom", "positions": pos.round(6).tolist()}
     elif st < 0.92:
+        ep = bool(rng.random() < 0.5)       # one-point scans with endpoint=True are the degenerate grid of C17: not judged here
         scan = {"type": "grid", "start": rng.uniform(-0.5, 0.5, 2).round(4).tolist(), "end": rng.uniform(0.6, 1.5, 2).round(4).tolist(),
-                "gpts": [int(rng.integers(1, 5)), int(rng.integers(1, 5))], "endpoint": bool(rng.random() < 0.5)}
+                "gpts": [int(rng.integers(2 if ep else 1, 5)), int(rng.integers(2 if ep else 1, 5))], "endpoint": ep}
     else:
         scan = {"type": "line", "start": rng.uniform(-0.5, 0.5, 2).round(4).tolist(), "end": rng.uniform(0.6, 1.5, 2).round(4).tolist(),
                 "gpts": int(rng.integers(2, 8)), "endpoint": bool(rng.random() < 0.5)}
     lazy = bool(rng.random() < 0.45)
+    via = str(rng.choice(["build", "build", "build", "multislice", "scan"]))
+    if via == "scan" and scan["type"] == "none":
+        via = "build"       # Probe.scan without positions = Nyquist grid scan of the whole cell (thousands of probes)
     return {"kind": "probe", "gpts": gpts, "extent": extent, "energy": energy, "aperture": ap, "coeffs": coeffs, "dists": dists,
             "alias": bool(rng.random() < 0.3), "tilt": _tilt_spec(rng), "scan": scan, "lazy": lazy,
             "max_batch": "auto" if rng.random() < 0.5 else int(rng.integers(1, 6)),
             "precision": str(rng.choice(["float32", "float32", "float64"])),
-            "via": str(rng.choice(["build", "build", "build", "multislice", "scan"]))}
+            "via": via}
 
 
 def gen_plane(rng):
